@@ -2,18 +2,19 @@
 # Sensitivity run: apply each planted change (or the given ones) to /repo, run the property's quick
 # check, record whether it was caught, undo the change. Usage: tools/run_planted.sh [dir] [pattern] [extra check args]
 # Never leaves /repo modified. Results: <dir>/RESULTS.txt
+REPO="${VERIF_REPO:-/repo}"; VDIR="${VERIF_DIR:-/verif}"; export VERIF_REPO="$REPO"
 DIR="${1:-/verif/tools/planted}"; PAT="${2:-*}"; shift 2 || true
 OUT="$DIR/RESULTS.txt"; : > "$OUT.tmp"
-if [ -n "$(git -C /repo status --porcelain --untracked-files=no)" ]; then echo "/repo is not clean"; exit 2; fi
+if [ -n "$(git -C "$REPO" status --porcelain --untracked-files=no)" ]; then echo "$REPO is not clean"; exit 2; fi
 for d in "$DIR"/$PAT.diff; do
   n=$(basename "$d" .diff); prop=${n%%_*}
   # (patches written against an older HEAD: fall back to a three-way merge)
-  git -C /repo apply "$d" 2>/dev/null || git -C /repo apply --3way "$d" >/dev/null 2>&1 || { git -C /repo reset -q --hard HEAD; echo "$n APPLY-FAILED" | tee -a "$OUT.tmp"; continue; }
-  if git -C /repo diff --name-only --diff-filter=U | grep -q .; then git -C /repo reset -q --hard HEAD; git -C /repo clean -fdq -- cli core; echo "$n APPLY-CONFLICT" | tee -a "$OUT.tmp"; continue; fi
+  git -C "$REPO" apply "$d" 2>/dev/null || git -C "$REPO" apply --3way "$d" >/dev/null 2>&1 || { git -C "$REPO" reset -q --hard HEAD; echo "$n APPLY-FAILED" | tee -a "$OUT.tmp"; continue; }
+  if git -C "$REPO" diff --name-only --diff-filter=U | grep -q .; then git -C "$REPO" reset -q --hard HEAD; git -C "$REPO" clean -fdq -- cli core; echo "$n APPLY-CONFLICT" | tee -a "$OUT.tmp"; continue; fi
   t0=$(date +%s)
-  out=$(cd /verif && VERIF_REPLAY_DIR=/dev/shm/planted_replays VERIF_EVIDENCE_DIR=/dev/shm/planted_evidence ./check "$prop" "$@" 2>&1); code=$?
+  out=$(cd "$VDIR" && VERIF_REPLAY_DIR=/dev/shm/planted_replays VERIF_EVIDENCE_DIR=/dev/shm/planted_evidence ./check "$prop" "$@" 2>&1); code=$?
   t1=$(date +%s)
-  git -C /repo reset -q --hard HEAD && git -C /repo clean -fdq -- cli core
+  git -C "$REPO" reset -q --hard HEAD && git -C "$REPO" clean -fdq -- cli core
   v=$(echo "$out" | grep -c '^VIOLATION')
   first=$(echo "$out" | grep '^VIOLATION' | head -1 | cut -c1-260)
   echo "$n exit=$code violations=$v wall=$((t1-t0))s :: $first" | tee -a "$OUT.tmp"
